@@ -2,7 +2,9 @@
 Built-in iterators
 
 Currently, this is explicit-euler and 4th order runga kutta
-''' 
+'''
+import numpy as np
+ 
 def ExplicitEulerIterator(f, t, X_old, updateX):
     '''
     Explicit euler iteration scheme
@@ -66,7 +68,8 @@ def RK4Iterator(f, t, X_old, updateX):
     dxdt, dt = f(t, X_old, True)
 
     k1 = dxdt
-    dxdtsum = k1
+    #Copy, the sum is accumulated in place and k1 can be an array that the caller still owns (even X_old itself)
+    dxdtsum = np.array(k1, dtype=np.float64)
     X_k1 = updateX(X_old, k1, dt/2)
 
     k2 = f(t + dt/2, X_k1)
